@@ -3,6 +3,7 @@ package labrt
 import (
 	"bytes"
 	"context"
+	"encoding/json"
 	"fmt"
 	"io"
 	"net/http"
@@ -13,6 +14,7 @@ import (
 	"sync/atomic"
 	"time"
 
+	"google.golang.org/protobuf/encoding/protojson"
 	"google.golang.org/protobuf/proto"
 	"google.golang.org/protobuf/reflect/protoreflect"
 )
@@ -236,4 +238,126 @@ func doBurst(c *cmd) {
 	burstLog = nil
 	burstMu.Unlock()
 	emit(map[string]any{"ev": "burst_done", "id": c.ID, "results": results, "handlers": log})
+}
+
+// doCodecBurst marshals ONE shared message object from Parallel goroutines (Rounds times each)
+// through exactly the entry points the generated server and client use, and unmarshals the shared
+// JSON bytes into a fresh message per goroutine. A codec must treat its receiver (marshal) and its
+// input (unmarshal) as read-only: the race detector watches the accesses, and the op reports the
+// distinct outputs seen and the wire form of the shared object before and after.
+func doCodecBurst(c *cmd) {
+	ev := map[string]any{"ev": "codecburst_out", "id": c.ID}
+	defer func() {
+		if p := recover(); p != nil {
+			ev["panic"] = fmt.Sprint(p)
+			ev["stack"] = string(debug.Stack())
+		}
+		emit(ev)
+	}()
+	m, err := newMsg(c.Type)
+	if err != nil {
+		ev["harness"] = err.Error()
+		return
+	}
+	if err := proto.Unmarshal(unb64(c.In), m); err != nil {
+		ev["harness"] = "bad wire: " + err.Error()
+		return
+	}
+	marshal := func(x proto.Message) ([]byte, error) {
+		if mj, ok := x.(json.Marshaler); ok {
+			return mj.MarshalJSON()
+		}
+		return protojson.Marshal(x)
+	}
+	_, ev["custom"] = m.(json.Marshaler)
+	before, _ := proto.MarshalOptions{Deterministic: true}.Marshal(m)
+	first, ferr := marshal(m)
+	if ferr != nil {
+		ev["first_err"] = ferr.Error()
+	}
+	par, rounds := c.Parallel, c.Rounds
+	if par <= 0 {
+		par = 4
+	}
+	if rounds <= 0 {
+		rounds = 10
+	}
+	var mu sync.Mutex
+	outs := map[string]int{}
+	decs := map[string]int{}
+	var panics []string
+	start := make(chan struct{})
+	var wg sync.WaitGroup
+	for g := 0; g < par; g++ {
+		wg.Add(1)
+		go func() {
+			defer wg.Done()
+			defer func() {
+				if p := recover(); p != nil {
+					mu.Lock()
+					panics = append(panics, fmt.Sprint(p)+"\n"+string(debug.Stack()))
+					mu.Unlock()
+				}
+			}()
+			<-start
+			for r := 0; r < rounds; r++ {
+				o, err := marshal(m)
+				k := "ok:" + string(o)
+				if err != nil {
+					k = "err:" + err.Error()
+				}
+				mu.Lock()
+				outs[k]++
+				mu.Unlock()
+				if ferr != nil {
+					continue
+				}
+				fresh, _ := newMsg(c.Type)
+				var derr error
+				if uj, ok := fresh.(json.Unmarshaler); ok {
+					derr = uj.UnmarshalJSON(first)
+				} else {
+					derr = protojson.Unmarshal(first, fresh)
+				}
+				dk := ""
+				if derr != nil {
+					dk = "err:" + derr.Error()
+				} else {
+					w, _ := proto.MarshalOptions{Deterministic: true}.Marshal(fresh)
+					dk = "ok:" + string(w)
+				}
+				mu.Lock()
+				decs[dk]++
+				mu.Unlock()
+			}
+		}()
+	}
+	close(start)
+	wg.Wait()
+	after, _ := proto.MarshalOptions{Deterministic: true}.Marshal(m)
+	list := func(mm map[string]int) []string {
+		var ks []string
+		for k := range mm {
+			ks = append(ks, k)
+		}
+		sort.Strings(ks)
+		if len(ks) > 4 {
+			ks = ks[:4]
+		}
+		for i := range ks {
+			ks[i] = b64([]byte(ks[i]))
+		}
+		return ks
+	}
+	ev["n_out"] = len(outs)
+	ev["outs"] = list(outs)
+	ev["n_dec"] = len(decs)
+	ev["decs"] = list(decs)
+	ev["first"] = b64(first)
+	ev["before"] = b64(before)
+	ev["after"] = b64(after)
+	ev["ops"] = par * rounds
+	if len(panics) > 0 {
+		ev["panic"] = panics[0]
+	}
 }
